@@ -1,9 +1,12 @@
-(* Consts — the constants the other properties name, re-read from the source on every run (Generated.v), against the
-   values the hand-written model uses (Aws.v) and the strings behind the reserved interned ids (Names.v / harness/intern.go).
-   Everything by reflexivity: editing a constant in Go breaks the corresponding line. *)
-From Coq Require Import String ZArith List.
-From Esc Require Import Base Config Generated Names Aws.
-Open Scope string_scope.
+(* Consts — the batching constants the theorems of C17 / C18 are about, re-read from the source on every run
+   (coq/Generated.v), against the values the hand-written model uses (Aws.v).  Everything by reflexivity: editing a
+   constant in Go breaks the corresponding line.  This file mentions ONLY gen_attach_batch(_z), gen_terminate_batch(_z)
+   and gen_max_tries, each of which the translator emits independently of every other item of Generated.v (a constant it
+   cannot read is emitted as `GenItemUntranslated`, and only the lines about that constant stop typechecking).
+   The NAME constants (taint keys, annotation key, default group, default effect, lifecycles) are supplementary ties:
+   Properties/ConstsTaint.v, ConstsNoDelete.v, ConstsDefaultGroup.v, ConstsLifecycle.v. *)
+From Coq Require Import ZArith List.
+From Esc Require Import Base Generated Aws.
 
 Theorem const_attach_batch : gen_attach_batch = Aws.attach_batch.
 Proof. reflexivity. Qed.
@@ -19,23 +22,3 @@ Theorem const_terminate_batch_le_1000 : (gen_terminate_batch <=? 1000)%nat = tru
 Proof. reflexivity. Qed.
 Theorem const_batches_positive : (1 <=? gen_attach_batch)%nat = true /\ (1 <=? gen_terminate_batch)%nat = true.
 Proof. split; reflexivity. Qed.
-
-(* the strings the harness interns as the reserved ids *)
-Theorem const_esc_key : name_of_id id_esc_key = Some gen_esc_key.
-Proof. reflexivity. Qed.
-Theorem const_force_key : name_of_id id_force_key = Some gen_force_key.
-Proof. reflexivity. Qed.
-Theorem const_nodelete_key : name_of_id id_nodelete = Some gen_nodelete_key.
-Proof. reflexivity. Qed.
-Theorem const_default_group : name_of_id id_default = Some gen_default_group.
-Proof. reflexivity. Qed.
-Theorem const_default_taint_effect : name_of_id id_NoSchedule = Some gen_default_taint_effect.
-Proof. reflexivity. Qed.
-Theorem const_lifecycle_on_demand : name_of_id id_on_demand = Some gen_lifecycle_on_demand.
-Proof. reflexivity. Qed.
-Theorem const_lifecycle_spot : name_of_id id_spot = Some gen_lifecycle_spot.
-Proof. reflexivity. Qed.
-Theorem const_instant : name_of_id Aws.id_instant = Some "instant".
-Proof. reflexivity. Qed.
-Theorem const_keys_distinct : gen_esc_key <> gen_force_key.
-Proof. discriminate. Qed.
